@@ -58,6 +58,7 @@ class Rig:
         self.req_of = {}          # transfer index -> StubRequest
         self.spec_of = {}         # transfer index -> scenario spec (two submitting threads: indices are in call order)
         self.serializer_fail = set()
+        self.queued_fail = set()     # transfers whose on_queued subscriber raises
         self.sh = sched_shims
         rig = self
 
@@ -129,6 +130,8 @@ class Rig:
 
             def on_queued(self, future, **kw):
                 rig.log('sub-queued', self.idx)
+                if self.idx in rig.queued_fail:
+                    raise SerializerFault('injected on_queued failure')
 
             def on_progress(self, future, bytes_transferred, **kw):
                 rig.log('sub-progress', self.idx)
@@ -215,6 +218,8 @@ class Rig:
             self.fail_make_request.add(idx)
         elif fail_mode == 'serializer':
             self.serializer_fail.add(idx)
+        elif fail_mode == 'on_queued':
+            self.queued_fail.add(idx)
         subs = [self.Sub(idx)]
         m = self.mgr
         before = self.client.calls
@@ -323,7 +328,7 @@ def _seq_case(rng, use_botocore):
                 kind = rng.choice(KINDS)
                 fail = None
                 if rng.random() < 0.25:
-                    fail = rng.choice(['make_request', 'serializer'] + (['nofile'] if kind == 'upload' else []))
+                    fail = rng.choice(['make_request', 'serializer', 'on_queued'] + (['nofile'] if kind == 'upload' else []))
                 if rig.free() == 0:
                     ops.append(('crt submit %s %d' % (kind, fail is not None), 'blocked'))
                     fp.append(('blocked',))
@@ -378,7 +383,7 @@ def _gen_scenario(rng, tier):
         kind = rng.choice(KINDS)
         fail = None
         if rng.random() < 0.2:
-            fail = rng.choice(['make_request', 'serializer'] + (['nofile'] if kind == 'upload' else []))
+            fail = rng.choice(['make_request', 'serializer', 'on_queued'] + (['nofile'] if kind == 'upload' else []))
         transfers.append({'kind': kind, 'fail': fail, 'err': rng.random() < 0.3,
                           'rename_fails': kind == 'dlpath' and rng.random() < 0.25})
     chain = False
